@@ -95,6 +95,12 @@ def gen_case(run_seed: int, index: int, tier: str) -> dict:
     n, k = enc.code_length, enc.code_dimension
     case.update({"decoder": dk, "dec_opts": opts, "advertised_d": d, "d_source": dsrc, "clause": clause})
     B = rng.choice([1, 1, 2, 3, 4, 4, 8])
+    rB = rng.random()
+    if rB < 0.13:
+        # medium-sized batches: just above small powers of two (10 %), hundreds to thousands of rows (3 %); bounded so that a
+        # codebook-vs-batch comparison (2^k x B x n) stays below ~0.5 GB
+        B = rng.randrange(9, 71) if rB < 0.10 else rng.choice([100, 257, 1000, 2100, 2100, 4100])
+        B = min(B, max(12, (1 << 27) // ((1 << min(k, 20)) * n)) - 3)
     huge = index % 3000 == 9 and "ml" in kinds and t is not None and k >= 10
     if huge:  # one very large batch per 3000 runs: more rows than 2**24 / 2**k
         dk, opts, clause = "ml", {}, 1
